@@ -21,6 +21,24 @@ def main():
         b = SchedulerConfig.match_item_keys(inp['name_b'], [inp['key_b']], False, inp.get('match_item_parents', False))
         same_case_class = inp['name_a'].lower() == inp['name_b'].lower() and inp['key_a'].lower() == inp['key_b'].lower()
         out = {'reproduced': bool(same_case_class and a != b), 'observed': {'run_a': list(a), 'run_b': list(b)}}
+    if inp['function'] == 'candidates':
+        from types import SimpleNamespace
+        from loki.batch import ItemFactory
+        local = inp.get('local') or 'kernel'
+        out = {'reproduced': False}
+        for loc in (local, 'kernel', 'k'):
+            for spell in (inp.get('name_a') or loc, inp.get('name_b') or loc.upper(), loc, loc.upper(), loc.capitalize()):
+                if spell.lower() != loc.lower():
+                    continue
+                fac = ItemFactory()
+                item = SimpleNamespace(name='mod#' + loc, local_name=loc, scope_name='mod')
+                fac.item_cache['mod'] = SimpleNamespace(name='mod', create_definition_items=lambda **kw: [item])
+                got = fac.get_or_create_module_definitions_from_candidates(spell, None, module_names=['mod'])
+                if len(got) != 1:
+                    out = {'reproduced': True, 'definition': 'mod#' + loc, 'lookup_name': spell, 'selected': len(got)}
+                    break
+            if out['reproduced']:
+                break
     print(json.dumps(out))
 
 
